@@ -17,6 +17,7 @@
      summary_groups, sum_items, group_offsets, so_item   summary section and summary offset records
      legal_shape cs             cs = CHeader h :: body ++ [CClose], no CClose and no CHeader in body
      att_small_call c           for CAttachment a _: 9 + |fields| + a_size a + 4 < 2^64 *)
+From Mcap Require ConstsTie LayoutTie DecisionTieW. (* regenerated ties to /repo's source that this property's model relies on *)
 From Coq Require Import List NArith ZArith Bool.
 From Coq.Strings Require Import Byte.
 From Mcap Require Import Bytes GoSem Crc32 Records Writer WriterFactsC.
